@@ -12,6 +12,9 @@ FLAKY = ("one run under heavy parallel load had 1 failure in the timing-sensitiv
          "it also fails occasionally on the unmodified tree under load); the seeding agent's own run of the suite with "
          "the patch, and where repeated here the re-run, passed all 1080")
 
+REBASED = ("a later 'fix:' commit touched the same lines: patch.diff is the same change re-applied by hand to the current "
+           "/repo HEAD (git apply works again), patch.orig.diff is the sub-agent's original")
+
 # id: (change, needs, detected_by, note on how the check had to be strengthened ('' = caught as it was), suite line)
 T = {
  "C04A": ("StartStage re-reads and re-commits the plan after losing the optimistic lock", "a zombie re-planner racing the original claimer on a stage whose tasks are built at start time", "C04 quick (E3)", "", "1080 passed"),
@@ -139,6 +142,8 @@ def main():
                 "detected_by": det, "source": "independent sub-agent given only the property text"}
         if note:
             meta["how_the_check_was_strengthened"] = note
+        if os.path.exists(os.path.join(d, "patch.orig.diff")):
+            meta["rebased"] = REBASED
         json.dump(meta, open(os.path.join(d, "meta.json"), "w"), indent=1)
         rows.append(f"| {sid} | {change} | {det} | {note} |")
     print("\n".join(rows))
